@@ -33,6 +33,52 @@ PROPS["C20"]["level_text"] = (
     "BitsReader (finding overread-56). Not yet proved: refinement of the BitsReader register to bit lists (the reader "
     "side is tied by op-for-op correspondence only).")
 
+PROPS["C09"] = {
+    "lean_modules": ["Stef.Props.C09"],
+    "harness": [{"bin": "h_cmp", "args": ["all"]}],
+    "rule": ("cases = (a) each primitive domain of go/pkg/types.go (all pairs and triples over boundary + random values; for "
+             "float64 every class: NaNs with payloads and either sign, +-0, +-inf, subnormals, extremes), (b) per generated "
+             "otelstef type (all 30 structs/oneofs/arrays/multimaps) pools of values built through the public setters - "
+             "equal copies, near-equal mutants, optional fields set/unset, frozen dictionary structs - with Cmp/IsEqual on "
+             "all pairs, transitivity on all triples, Clone and CopyFrom (into fresh and into used destinations) with "
+             "equality and two-way independence under further mutation, once with plain floats (no NaN, no -0: every "
+             "failure is a fresh violation) and for 10 types again with all float classes (failures explained by NaN/-0 go "
+             "to the listed signatures), (c) mutation attempts on frozen Resource/Scope/Metric, (d) random histories of "
+             "mutate/CopyFrom/Clone/compare over three variables with an aliasing check after every step; op lines "
+             "(prim/cmp/eq/clone/copy) are replayed on the Lean model; a value case is non-trivial when its canonical dump "
+             "nests at least two levels (or one level with more than 24 characters); a history is non-trivial with >= 8 "
+             "steps; distinct by hash of the dump / of the op descriptions"),
+    "trusted_base": COMMON_TB + [
+        "primitive comparators pkg.{Uint64,Int64,Bool,Float64}{Compare,Equal} are REGENERATED from go/pkg/types.go "
+        "(Stef/Gen/Funcs.lean); String/BytesCompare are checked by the extractor to be strings.Compare and modelled by hand",
+        "Stef.Flt (IEEE-754 <, >, == on bit patterns) is hand-written, tied to Go's float64 operators by the `prim fltops` lines",
+        "Stef/Cmp.lean (generic Cmp/IsEqual/copyToNew/Clone/CopyFrom over value trees) is a hand transcription of "
+        "stefc/templates/go/{struct,oneof,array,multimap}.go.tmpl, tied to go/otel/otelstef by h_cmp correspondence "
+        "(cmp/eq/clone/copy lines on dumps read back through the public getters)",
+        "the harness' schema table of otelstef (field order, optional flags) is a transcription of go/otel/otel.stef; "
+        "setters/getters are resolved by name through reflection (a mismatch crashes the harness)",
+    ],
+    "assumptions": [
+        "Go float64 <, >, == are IEEE-754 binary64 (NaN unordered, -0 == +0)",
+        "copy independence and frozen-value behaviour (pointer aliasing) are evaluated on the implementation only; the Lean "
+        "model is value-level (Clone/CopyFrom results), it has no heap",
+        "CopyFrom correspondence lines are emitted only for destinations that were never shrunk and sources without frozen "
+        "dictionary structs (hidden slice slots / pointer sharing are outside the value model); the equality and "
+        "independence checks run on all of them",
+    ],
+}
+
+PROPS["C09"]["level_text"] = (
+    "Theorems (Stef/Props/C09.lean): each regenerated comparator (uint64, int64, bool, string/bytes) is a total order "
+    "(reflexive-zero, antisymmetric, transitive, =0 iff identical); generic lifting theorem: leaf total order => the "
+    "generated structural Cmp over ANY record tree (struct with optional presence, oneof, array, multimap, nil dict "
+    "pointer) is a total order with Cmp=0 iff identical; IsEqual iff same visible data; CopyFrom/copyToNew yield the "
+    "source's data for every prior destination; Clone for values without top-level optionals. Refuted from witnesses "
+    "(genuine defects, kept as known findings): Float64Compare with NaN / -0 (so Cmp is not transitive / not exact), "
+    "Clone drops optional presence, Cmp compares stored values of absent optionals; `_partial` theorems carry the "
+    "excluding hypotheses (no NaN, no -0; no top-level optional; clean absent fields). Tied to the code by regenerated "
+    "comparators and op-for-op differential runs on all 30 otelstef types.")
+
 HOOK_COMMITS = ["dfe47e0", "f85f827"]
 NOT_CLAIMED = {
     "C11": ("byte equality between checked-in files and the output of text/template + gofmt (and the Java templates): "
